@@ -3,5 +3,3 @@ package main
 import "os"
 
 func readFile(p string) ([]byte, error) { return os.ReadFile(p) }
-
-func workerMain(args []string) {}
